@@ -56,6 +56,30 @@ func VF_C07_late_waiter() {
 	vfAssert(string(r1) == ":1\r\n", "reply-lost-when-apply-is-fast")
 }
 
+// VF_C07_slow_commit: Raft takes its time to commit (no quorum for a while, a leader change that keeps the
+// entry): virtual time passes while the handler waits for its result. The command is handed to Raft once -
+// nothing on the apply side could tell a second copy from a new command - and takes effect once.
+func VF_C07_slow_commit() {
+	vfOpt("timers", 1)
+	cl := c14Start()
+	cl.conn.In <- vfEncode(bs("incr"), bs("n"))
+	p := <-cl.proposeC
+	wait := 30 * time.Second
+	if !vfIsSymbolic() {
+		wait = 5 * time.Second
+	}
+	select {
+	case <-cl.proposeC:
+		vfAssert(false, "command-proposed-twice-while-commit-is-slow")
+	case <-time.After(wait):
+	}
+	done := make(chan struct{}, 1)
+	cl.commitC <- &raftexample.RaftCommit{Data: []*raftexample.RaftProposal{c14JSON(p)}, ApplyDoneC: done}
+	r1 := <-cl.conn.Out
+	vfAssert(string(r1) == ":1\r\n", "slow-commit-reply")
+	vfAssert(string(cl.do(bs("get"), bs("n"))) == "$1\r\n1\r\n", "slow-commit-applied-once")
+}
+
 // two nodes; every committed proposal is delivered to both apply loops in the same order
 type c07Node struct {
 	*c14Cluster
